@@ -15,29 +15,39 @@ func TestVerif_Probe(t *testing.T) {
 		vh.Inconclusive(t, "start: %v", err)
 	}
 	defer srv.Stop()
+	mem, err := qStartMem()
+	if err != nil {
+		vh.Inconclusive(t, "mem: %v", err)
+	}
+	defer mem.Stop()
 	admin := srv.Session(t, "admin", "")
+	madmin := mem.Conn(t, "")
 	admin.MustExec(t, "CREATE DATABASE d1")
+	madmin.MustExec(t, "CREATE DATABASE d1")
 	a := srv.Session(t, "a", "d1")
+	m := mem.Conn(t, "d1")
 	for _, s := range []string{
-		"CREATE TABLE `t1` (`k0` VARCHAR(40) COLLATE utf8mb4_0900_bin NOT NULL, `c0` DECIMAL(10,2), `c1` DECIMAL(10,2), PRIMARY KEY (`k0`), UNIQUE KEY `i0` (`c0`,`k0`))",
-		"CREATE TABLE `t2` (`k0` INT UNSIGNED NOT NULL, `k1` DECIMAL(10,2) NOT NULL, `c1` SMALLINT, PRIMARY KEY (`k0`,`k1`))",
-		"INSERT INTO `t1` VALUES ('c',0.01,-99999999.99),('0b',NULL,99999999.99),('á',0.01,NULL)",
-		"INSERT INTO `t2` VALUES (1,0.01,32767),(2,0.07,32767),(12,-15.10,-2),(4,-0.01,NULL),(9,50.77,32767),(10,0.01,NULL),(4294967295,-1.03,NULL),(10,-0.03,-2),(9,13.99,32767),(6,-18.27,10),(3,0.05,12),(11,-0.09,12),(4294967295,0.00,-1),(3,-30.00,-1),(2,0.18,11),(2,0.16,12),(9,0.86,-1),(4294967295,106.28,32767)",
+		"CREATE TABLE `t0` (`c0` BIGINT, `c1` VARCHAR(16) COLLATE utf8mb4_general_ci NOT NULL, `c2` DECIMAL(10,2), KEY `i0` (`c2`,`c1`))",
+		"INSERT INTO `t0` VALUES (0,'a ',-1.25),(NULL,'',-99999999.99),(-3,'',-1.00),(4294967296,'a ',-1.00),(0,'a ',NULL),(3,'A',-99999999.99),(4294967296,'A',-1.25),(4294967296,'a ',-99999999.99),(0,'A',NULL),(-1,'',-1.00)",
+		"CREATE TABLE `t1` (k int primary key, `c0` BIGINT, `c1` VARCHAR(16) COLLATE utf8mb4_general_ci NOT NULL, `c2` DECIMAL(10,2), KEY `i0` (`c2`,`c1`))",
+		"INSERT INTO `t1` VALUES (1,0,'a ',-1.25),(2,NULL,'',-99999999.99),(3,-3,'',-1.00),(4,4294967296,'a ',-1.00),(5,0,'a ',NULL),(6,3,'A',-99999999.99),(7,4294967296,'A',-1.25),(8,4294967296,'a ',-99999999.99),(9,0,'A',NULL),(10,-1,'',-1.00)",
 	} {
 		a.MustExec(t, s)
+		m.MustExec(t, s)
 	}
 	for _, q := range []string{
-		"SELECT /*+ LOOKUP_JOIN(a,b) */ a.k0, a.k1, a.`c1`, b.k0, b.c0, b.`c1` FROM `t2` a LEFT JOIN `t1` b ON a.`k1` = b.`c0` AND a.`k1` <> b.`c1` ORDER BY 1,2,4",
-		"SELECT /*+ HASH_JOIN(a,b) */ a.k0, a.k1, a.`c1`, b.k0, b.c0, b.`c1` FROM `t2` a LEFT JOIN `t1` b ON a.`k1` = b.`c0` AND a.`k1` <> b.`c1` ORDER BY 1,2,4",
-		"SELECT /*+ LOOKUP_JOIN(a,b) */ a.k0, a.k1, a.`c1`, b.k0, b.c0, b.`c1` FROM `t2` a LEFT JOIN `t1` b ON a.`k1` = b.`c0` ORDER BY 1,2,4",
-		"SELECT /*+ LOOKUP_JOIN(a,b) */ a.k0, a.k1, a.`c1`, b.k0, b.c0, b.`c1` FROM `t2` a JOIN `t1` b ON a.`k1` = b.`c0` AND a.`k1` <> b.`c1` ORDER BY 1,2,4",
-		"EXPLAIN PLAN SELECT /*+ LOOKUP_JOIN(a,b) */ a.k0, a.k1, a.`c1`, b.k0, b.c0, b.`c1` FROM `t2` a LEFT JOIN `t1` b ON a.`k1` = b.`c0` AND a.`k1` <> b.`c1`",
+		"SELECT c2, c0 FROM t0 WHERE ((`c2` <=> -99999999.99 AND NOT (`c2` IS NOT NULL)) OR `c2` <> -99999999.99)",
+		"SELECT c2, c0 FROM t0 WHERE `c2` <> -99999999.99",
+		"SELECT c2, c0 FROM t0 WHERE `c2` <> -1.00",
+		"SELECT c2, c0 FROM t0 WHERE `c2` > -99999999.99",
+		"SELECT c2, c0 FROM t1 WHERE `c2` <> -99999999.99",
+		"SELECT c2, c0 FROM t1 WHERE `c2` > -99999999.99",
+		"SELECT c2, c0 FROM t1 WHERE `c2` >= -99999999.99 and c2 < -1.00",
 	} {
-		r, err := a.Query(q)
-		if err != nil {
-			t.Logf("%s => ERR %v", q, err)
-			continue
-		}
-		t.Logf("%s =>\n   %v", q, vsql.Show(r.Ordered()))
+		r1, e1 := a.Query(q)
+		r2, e2 := m.Query(q)
+		p1, _ := a.Query("EXPLAIN PLAN " + q)
+		p2, _ := m.Query("EXPLAIN PLAN " + q)
+		t.Logf("%s\n  dolt %v %v\n  mem  %v %v\n  dplan %s\n  mplan %s", q, r1, e1, r2, e2, vsql.Show(p1.Ordered()), vsql.Show(p2.Ordered()))
 	}
 }
